@@ -97,8 +97,41 @@ def _shorten(s):
     return out
 
 
-def shrink_variants(op, inp):
-    """structurally smaller variants of an input (generic over JSON)"""
+def shrink_variants(op, inp, limit=400):
+    """structurally smaller variants of an input (generic over JSON), at most `limit`;
+    big lists are halved first"""
+    import itertools, json as _json
+
+    def halves(node, path):
+        if isinstance(node, dict):
+            for k, v in node.items():
+                yield from halves(v, path + [k])
+        elif isinstance(node, list):
+            if len(node) > 3:
+                yield (path, node[: len(node) // 2])
+                yield (path, node[len(node) // 2:])
+            for i, v in enumerate(node[:8]):
+                yield from halves(v, path + [i])
+
+    def setp0(root, path, val):
+        for p in path[:-1]:
+            root = root[p]
+        root[path[-1]] = val
+
+    big = []
+    for (path, val) in halves(inp, []):
+        if path:
+            c = copy.deepcopy(inp)
+            setp0(c, path, val)
+            big.append(c)
+    if big:
+        yield from big
+        if len(_json.dumps(inp)) > 20000:
+            return
+    yield from itertools.islice(_shrink_variants_all(op, inp), limit)
+
+
+def _shrink_variants_all(op, inp):
     def walk(node, path):
         if isinstance(node, dict):
             for k, v in node.items():
